@@ -47,13 +47,16 @@ CONSTANTS Layouts,        \* subset of {"csr", "bcsr", "pdiag", "pfull"}
           Iters,          \* set of iteration / step counts
           FiltSel,        \* subset of {"none", "v", "p", "vp"}
           Pals,           \* value palettes 1..3
-          APat,           \* "diag": A couples no two nodes; "all": every off-diagonal node pattern
-          MinNz, MaxNz    \* bounds on the number of pattern entries of B plus D
+          APat,           \* "diag": A couples no two nodes; "all": every off-diagonal node pattern; "coupled": every non-empty one
+          MinNz, MaxNz,   \* bounds on the number of pattern entries of B plus D
+          ZDP             \* FALSE: the exact domain described above.  TRUE: ONLY systems with a local matrix that is regular but on
+                          \* which the diagonal pivoting of Math::invert_matrix meets a zero pivot (known finding
+                          \* C08x-invert-matrix-diagonal-pivoting); its inverse is computed with row pivoting (DyadicLA!InverseRP)
 
-VARIABLES lay, n, m, PA, PB, PD, pal, kind, om, iters, fsel,    \* the chosen input (constant along a behaviour)
+VARIABLES lay, n, m, PA, PB, PD, pal, cls, kind, om, iters, fsel,    \* the chosen input (constant along a behaviour)
           idx, nvs, cnt, mats, fac, ama, tests,                 \* functions of the input (block structure, factorisations)
           pc, it, k, X, Tt, lastr                               \* the sweep
-input == <<lay, n, m, PA, PB, PD, pal, kind, om, iters, fsel>>
+input == <<lay, n, m, PA, PB, PD, pal, cls, kind, om, iters, fsel>>
 derived == <<idx, nvs, cnt, mats, fac, ama, tests>>
 vars == <<input, derived, pc, it, k, X, Tt, lastr>>
 
@@ -62,6 +65,12 @@ IsFull(kd)  == kd \in {"nfm", "bfm", "nfa", "bfa", "ama", "amas"}
 IsAdd(kd)   == kd \in {"nda", "nfa", "bda", "bfa"}
 IsAma(kd)   == kd \in {"ama", "amas"}
 Omega(o) == <<One, H(1, 1), H(3, 1)>>[o]
+\* block structure and factorisation depend on the kind only through its class <<family, block?, full?>>; Init chooses the class
+\* first and the kind after the (expensive) domain test
+ClassOf(kd) == <<IF kd \in {"ama", "amas"} THEN kd ELSE "vanka", IsBlock(kd), IsFull(kd)>>
+BlockC == cls[2]
+FullC == cls[3]
+AmaC == cls[1] # "vanka"
 
 \* ---- numbering -------------------------------------------------------------------------------------------------
 DimOf(ly) == IF ly = "csr" THEN 1 ELSE 2
@@ -74,26 +83,32 @@ NodeOf(i) == NodeOfL(lay, n, i)
 CompOf(i) == CompOfL(lay, n, i)
 
 \* ---- values -------------------------------------------------------------------------------------------------------
+\* The palettes are chosen so that many systems fall into the exact domain: the main diagonal of A consists of powers of two
+\* that dominate the couplings (Math::invert_matrix then eliminates the velocity dofs first and - as long as A is triangular up to
+\* a permutation - meets the diagonal entries themselves as pivots); whether the local Schur complements are inverted with
+\* power-of-two pivots is decided by TLC (Init).
 OffPal == <<D(1), D(-1), H(1, 1), D(2), H(-1, 1), D(-2), D(1)>>
-DiagPal == <<D(2), D(1), D(4), D(2), H(1, 1)>>
-\* A: power-of-two main diagonal; the components of one node are coupled for BCSR / PowerFull (not for PowerDiag);
+BDPal == <<D(1), D(-1), H(1, 1), D(1), H(-1, 1), D(2), D(-1)>>
+DiagPal == <<D(4), D(8), D(4), D(16), D(8)>>
+\* A: power-of-two main diagonal; the components of one node are coupled for BCSR / PowerFull (not for PowerDiag): the
+\* entry (comp 1, comp 2) of the node block is non-zero, the entry (comp 2, comp 1) is a stored zero;
 \* different nodes are coupled on the node pattern PA (PowerDiag: equal components only)
 AVal(i, j, pl) ==
   LET vi == NodeOf(i)  vj == NodeOf(j)  ci == CompOf(i)  cj == CompOf(j) IN
   IF i = j THEN DiagPal[((vi * 2 + ci + pl) % 5) + 1]
   ELSE IF lay = "pdiag" /\ ci # cj THEN Zero
-  ELSE IF vi = vj THEN <<Zero, D(1), H(-1, 1)>>[((vi + ci + pl) % 3) + 1]
+  ELSE IF vi = vj THEN (IF ci < cj THEN <<D(1), H(-1, 1), D(-2)>>[((vi + pl) % 3) + 1] ELSE Zero)
   ELSE IF <<vi, vj>> \in PA THEN OffPal[((vi * 3 + vj * 5 + ci + cj * 2 + pl) % 7) + 1]
   ELSE Zero
 \* B (NV x m) and D (m x NV): independent values (D # B^T); the second component of a stored block may be zero
 BVal(i, q, pl) ==
   IF <<NodeOf(i), q>> \notin PB THEN Zero
-  ELSE IF CompOf(i) = 1 THEN OffPal[((NodeOf(i) * 3 + q * 5 + pl) % 7) + 1]
+  ELSE IF CompOf(i) = 1 THEN BDPal[((NodeOf(i) * 3 + q * 5 + pl) % 7) + 1]
   ELSE <<D(1), Zero, D(-1), H(1, 1)>>[((NodeOf(i) + q * 3 + pl) % 4) + 1]
 DVal(q, j, pl) ==
   IF <<q, NodeOf(j)>> \notin PD THEN Zero
-  ELSE IF CompOf(j) = 1 THEN OffPal[((q * 2 + NodeOf(j) * 3 + pl * 4) % 7) + 1]
-  ELSE <<D(-1), D(1), Zero, D(2)>>[((NodeOf(j) * 3 + q + pl) % 4) + 1]
+  ELSE IF CompOf(j) = 1 THEN BDPal[((q * 2 + NodeOf(j) * 3 + pl * 4) % 7) + 1]
+  ELSE <<D(-1), D(1), Zero, H(1, 1)>>[((NodeOf(j) * 3 + q + pl) % 4) + 1]
 \* the saddle-point matrix in flat numbering.  Value set 1 takes the palette; value set 2 (after the update) is
 \*    A2 = 4 A1,  B2 = 2 B1,  D2 = 8 D1,   i.e.  M2 = R M1 C  with  R = diag(I, 2 I), C = diag(4 I, 2 I):
 \* every diagonal entry met during the elimination of any local system is multiplied by 4, so the pivot order and the
@@ -113,7 +128,7 @@ BuildBlocks(i, mask, acc) ==
   IF i > m THEN acc
   ELSE IF i \in mask THEN BuildBlocks(i + 1, mask, acc)
   ELSE BuildBlocks(i + 1, mask \cup BlockP(i), Append(acc, BlockP(i)))
-PSets == IF IsBlock(kind) THEN BuildBlocks(1, {}, <<>>) ELSE Vec(m, LAMBDA q : {q})
+PSets == IF BlockC THEN BuildBlocks(1, {}, <<>>) ELSE Vec(m, LAMBDA q : {q})
 VNodes(P) == {j \in 1..n : \E q \in P : <<q, j>> \in PD}
 \* global flat indices of a block with pressure dofs P: velocity (all components of its nodes) in increasing order, then pressure
 IdxOfP(P) == SetSeq({i \in 1..NV : NodeOf(i) \in VNodes(P)}) \o SetSeq({NV + q : q \in P})
@@ -133,24 +148,31 @@ NpOf(b) == Len(idx[b]) - nvs[b]
 
 \* ---- factorisation (init_numeric) ----------------------------------------------------------------------------------------
 LocalMat(Mx, ix) == MatOf(Len(ix), Len(ix), LAMBDA a, b : Mx[ix[a]][ix[b]])
-FactorFull(Mx, b) == LET L == LocalMat(Mx, idx[b])  r == Inverse(Len(idx[b]), L)
-                     IN [st |-> r.st, inv |-> r.a, zl |-> HasZeroLine(Len(idx[b]), L), loc |-> L]
+\* inverse of a local matrix: [st, a, zdp];  zdp = regular, but only row pivoting finds the inverse (generated only with ZDP)
+LocalInverse(nn, L) ==
+  LET r == Inverse(nn, L) IN
+  IF r.st = "zero" /\ ZDP /\ ~HasZeroLine(nn, L)
+  THEN LET r2 == InverseRP(nn, L) IN IF r2.st = "ok" THEN [st |-> "ok", a |-> r2.a, zdp |-> TRUE] ELSE [st |-> r.st, a |-> r.a, zdp |-> FALSE]
+  ELSE [st |-> r.st, a |-> r.a, zdp |-> FALSE]
+FactorFull(Mx, b) == LET L == LocalMat(Mx, idx[b])  zl == HasZeroLine(Len(idx[b]), L) IN
+                     IF zl THEN [st |-> "zero", inv |-> L, zl |-> TRUE, loc |-> L, zdp |-> FALSE]
+                     ELSE LET r == LocalInverse(Len(idx[b]), L) IN [st |-> r.st, inv |-> r.a, zl |-> FALSE, loc |-> L, zdp |-> r.zdp]
 FactorDiag(Mx, b) ==
   LET ix == idx[b]  nv == NvOf(b)  np == NpOf(b)
       ainv == Vec(nv, LAMBDA a : IF IsPow2(Mx[ix[a]][ix[a]]) THEN Div(One, Mx[ix[a]][ix[a]]) ELSE Inexact)
       dt == MatOf(np, nv, LAMBDA i, a : FMul(Mx[ix[nv + i]][ix[a]], ainv[a]))        \* D a^-1
       bl == MatOf(nv, np, LAMBDA a, j : Mx[ix[a]][ix[nv + j]])
       S == MatOf(np, np, LAMBDA i, j : Neg(FSumTo(LAMBDA a : FMul(dt[i][a], bl[a][j]), nv)))
-      r == Inverse(np, S)
+      r == LocalInverse(np, S)
   \* an empty block (block variants: the pressure dof that opens it has a structurally zero Schur complement entry, no dof
   \* reaches the maximal degree) counts as singular like the 1 x 1 zero Schur complement of the nodal variant
   IN [st |-> IF VecExact(ainv) THEN r.st ELSE "inexact", ainv |-> ainv, dt |-> dt, bl |-> bl, sinv |-> r.a,
-      zl |-> VecExact(ainv) /\ (np = 0 \/ HasZeroLine(np, S)), loc |-> S]
-Factor(Mx) == Vec(NB, LAMBDA b : IF IsFull(kind) THEN FactorFull(Mx, b) ELSE FactorDiag(Mx, b))
+      zl |-> VecExact(ainv) /\ (np = 0 \/ HasZeroLine(np, S)), loc |-> S, zdp |-> r.zdp]
+Factor(Mx) == Vec(NB, LAMBDA b : IF FullC THEN FactorFull(Mx, b) ELSE FactorDiag(Mx, b))
 
 \* local solve of block b with factorisation F for the local right-hand side r (velocity first)
 LocalSolve(F, b, r) ==
-  IF IsFull(kind) THEN RMatVec(Len(r), Len(r), F[b].inv, r)
+  IF FullC THEN RMatVec(Len(r), Len(r), F[b].inv, r)
   ELSE LET nv == NvOf(b)  np == NpOf(b)  fb == F[b]
            g == Vec(np, LAMBDA i : FSub(r[nv + i], FSumTo(LAMBDA a : FMul(fb.dt[i][a], r[a]), nv)))
            p == RMatVec(np, np, fb.sinv, g)
@@ -183,7 +205,7 @@ Gather(v, ix) == Vec(Len(ix), LAMBDA a : v[ix[a]])
 ScatterAdd(x, ix, w, c) == Vec(Len(x), LAMBDA i : IF InIdx(ix, i) THEN FAdd(x[i], FMul(w, c[PosIn(ix, i)])) ELSE x[i])
 
 \* ---- AmaVanka: the assembled matrix -------------------------------------------------------------------------------------
-MacroActive(F, b) == kind = "ama" \/ F[b].st = "ok"
+MacroActive(F, b) == cls[1] = "ama" \/ F[b].st = "ok"
 ActiveCount(F, i) == Cardinality({b \in 1..NB : MacroActive(F, b) /\ InIdx(idx[b], i)})
 AmaRaw(F, i, j) ==       \* sum over the (regular) macros containing i and j of the entry of the local inverse
   FSumTo(LAMBDA b : IF MacroActive(F, b) /\ InIdx(idx[b], i) /\ InIdx(idx[b], j)
@@ -194,9 +216,9 @@ AmaMatrix(F) == MatOf(NN, NN, LAMBDA i, j :
 
 \* the domain of a value set: 0 = outside, 1 = regular, 2 = init_numeric must throw VankaFactorError
 DomainOf(F) ==
-  IF IsAma(kind) THEN
-       IF \A b \in 1..NB : F[b].st = "ok" \/ (kind = "amas" /\ F[b].zl) THEN 1 ELSE 0
-  ELSE IF IsFull(kind) THEN (IF \A b \in 1..NB : F[b].st = "ok" THEN 1 ELSE 0)
+  IF AmaC THEN
+       IF \A b \in 1..NB : F[b].st = "ok" \/ (cls[1] = "amas" /\ F[b].zl) THEN 1 ELSE 0
+  ELSE IF FullC THEN (IF \A b \in 1..NB : F[b].st = "ok" THEN 1 ELSE 0)
   ELSE IF \E b \in 1..NB : ~VecExact(F[b].ainv) THEN 0
   ELSE IF \E b \in 1..NB : F[b].zl THEN 2
   ELSE IF \A b \in 1..NB : F[b].st = "ok" THEN 1 ELSE 0
@@ -206,28 +228,34 @@ ZeroTab == Tab(LAMBDA cb, t : ZeroVec(NN))
 \* enumerates omega, the iteration count and the filters after the domain test
 Init ==
   /\ lay \in Layouts /\ n \in NVs /\ m \in NPs
-  /\ PA \in (IF APat = "diag" THEN {{}} ELSE SUBSET {ij \in (1..n) \X (1..n) : ij[1] # ij[2]})
+  /\ PA \in (IF APat = "diag" THEN {{}} ELSE (SUBSET {ij \in (1..n) \X (1..n) : ij[1] # ij[2]}) \ (IF APat = "coupled" THEN {{}} ELSE {}))
   /\ PB \in SUBSET ((1..n) \X (1..m)) /\ PD \in SUBSET ((1..m) \X (1..n))
   /\ Cardinality(PB) + Cardinality(PD) >= MinNz /\ Cardinality(PB) + Cardinality(PD) <= MaxNz
-  /\ pal \in Pals /\ kind \in Kinds
-  /\ (IsAma(kind) => lay = "bcsr")
+  /\ pal \in Pals /\ cls \in {ClassOf(kd) : kd \in Kinds}
+  /\ (AmaC => lay = "bcsr")
   \* Vanka reads the row pointer arrays of D (and of B for the block variants) in init_symbolic, and asserts non-empty BCSR
   \* matrices: D (and B) must have at least one stored entry
-  /\ (~IsAma(kind) => PD # {} /\ (IF PB = {} THEN ~IsBlock(kind) /\ lay # "bcsr" ELSE TRUE))
+  /\ (~AmaC => PD # {} /\ (IF PB = {} THEN ~BlockC /\ lay # "bcsr" ELSE TRUE))
   /\ idx = Vec(Len(PSets), LAMBDA b : IdxOfP(PSets[b]))
   /\ nvs = Vec(Len(PSets), LAMBDA b : NvOfP(PSets[b]))
   /\ cnt = Vec(NN, LAMBDA i : Cardinality({b \in 1..Len(idx) : InIdx(idx[b], i)}))
-  /\ (IsAdd(kind) => \A i \in 1..NN : cnt[i] \in {0, 1, 2, 4})
-  /\ (IsAma(kind) => \A i \in 1..NN : cnt[i] >= 1)           \* AmaVanka asserts that every dof lies in a macro
+  /\ (AmaC => \A i \in 1..NN : cnt[i] >= 1)           \* AmaVanka asserts that every dof lies in a macro
   /\ mats = <<MOf(1), MOf(2)>>
-  /\ fac = <<Factor(mats[1]), Factor(mats[2])>>
-  /\ LET d1 == DomainOf(fac[1])  d2 == DomainOf(fac[2]) IN
-       /\ d1 # 0 /\ d1 = d2
-       /\ pc = (IF d1 = 2 THEN "throws" ELSE "sweep")
+  \* the second value set is a scaling of the first which preserves the domain (see MOf): test the first one only
+  /\ \E f1 \in {Factor(mats[1])} : DomainOf(f1) # 0 /\ fac = <<f1, Factor(mats[2])>>
+  /\ DomainOf(fac[2]) = DomainOf(fac[1])
+  /\ (ZDP <=> \E b \in 1..NB : fac[1][b].zdp)
+  /\ pc = (IF DomainOf(fac[1]) = 2 THEN "throws" ELSE "sweep")
+  /\ kind \in {kd \in Kinds : ClassOf(kd) = cls}
+  /\ (IsAdd(kind) => \A i \in 1..NN : cnt[i] \in {0, 1, 2, 4})
+  \* additive variants with a dof in no block (see known finding C08x-vanka-additive-uncovered-dof-nan): only a thin family
+  /\ (IsAdd(kind) /\ (\E i \in 1..NN : cnt[i] = 0) => PA = {} /\ pal = (CHOOSE o \in Pals : TRUE) /\ Cardinality(PB) + Cardinality(PD) = MinNz)
   /\ om \in Oms /\ iters \in Iters /\ fsel \in FiltSel
+  \* the cases in which init_numeric must throw need no sweep: one per pattern of B and D, for the multiplicative kinds
+  /\ (pc = "throws" => PA = {} /\ pal = (CHOOSE o \in Pals : TRUE) /\ ~IsAdd(kind))
   /\ (pc = "throws" => om = CHOOSE o \in Oms : TRUE)  /\ (pc = "throws" => iters = CHOOSE o \in Iters : TRUE) /\ (pc = "throws" => fsel = CHOOSE o \in FiltSel : TRUE)
-  /\ (IsAma(kind) => \A c \in {1, 2} : \A i \in 1..NN : ActiveCount(fac[c], i) > 0 => IsExact(Div(Omega(om), D(ActiveCount(fac[c], i)))))
-  /\ ama = IF IsAma(kind) THEN <<AmaMatrix(fac[1]), AmaMatrix(fac[2])>> ELSE <<>>
+  /\ (AmaC => \A c \in {1, 2} : \A i \in 1..NN : ActiveCount(fac[c], i) > 0 => IsExact(Div(Omega(om), D(ActiveCount(fac[c], i)))))
+  /\ ama = IF AmaC THEN <<AmaMatrix(fac[1]), AmaMatrix(fac[2])>> ELSE <<>>
   /\ tests = TestsOf
   /\ it = 1 /\ k = 1 /\ X = ZeroTab /\ Tt = ZeroTab /\ lastr = <<>>
 
@@ -236,7 +264,7 @@ AddDefectAt(cb, t, ix) == IF it = 1 THEN Gather(tests[t], ix) ELSE ResidualAt(ma
 
 \* one block of the sweep (Vanka)
 BlockStep ==
-  /\ pc = "sweep" /\ ~IsAma(kind) /\ k <= NB
+  /\ pc = "sweep" /\ ~AmaC /\ k <= NB
   /\ LET ix == idx[k] IN
        IF IsAdd(kind)
        THEN /\ Tt' = Tab(LAMBDA cb, t : ScatterAdd(Tt[cb][t], ix, Omega(om), LocalSolve(fac[Combos[cb][1]], k, AddDefectAt(cb, t, ix))))
@@ -248,7 +276,7 @@ BlockStep ==
 
 \* end of an iteration: additive update (a dof in no block receives no correction), correction filter
 EndIter ==
-  /\ pc = "sweep" /\ ~IsAma(kind) /\ k = NB + 1
+  /\ pc = "sweep" /\ ~AmaC /\ k = NB + 1
   /\ X' = Tab(LAMBDA cb, t :
              IF IsAdd(kind)
              THEN Filt(Vec(NN, LAMBDA i : IF cnt[i] = 0 THEN X[cb][t][i]
@@ -260,7 +288,7 @@ EndIter ==
 
 \* AmaVanka: one step = one product with the assembled matrix
 AmaStep ==
-  /\ pc = "sweep" /\ IsAma(kind)
+  /\ pc = "sweep" /\ AmaC
   /\ X' = Tab(LAMBDA cb, t :
              LET V == ama[Combos[cb][1]] IN
              IF it = 1 THEN Filt(RMatVec(NN, NN, V, tests[t]))
@@ -275,28 +303,28 @@ Spec == Init /\ [][Next]_vars
 \* the local inverses are inverses (diag variants: of the local Schur complement)
 InverseLaws == pc = "sweep" /\ it = 1 /\ k = 1 => \A c \in {1, 2} : \A b \in 1..NB :
    LET fb == fac[c][b] IN
-     fb.st = "ok" => InverseLaw(IF IsFull(kind) THEN Len(idx[b]) ELSE NpOf(b), fb.loc, IF IsFull(kind) THEN fb.inv ELSE fb.sinv)
+     fb.st = "ok" => InverseLaw(IF FullC THEN Len(idx[b]) ELSE NpOf(b), fb.loc, IF FullC THEN fb.inv ELSE fb.sinv)
 \* block Gauss-Seidel: after the relaxation of block k (full, multiplicative, factors of the current values) the residual on the
 \* block is (1 - omega) times the residual before
-GaussSeidelLaw == pc = "sweep" /\ ~IsAdd(kind) /\ ~IsAma(kind) /\ IsFull(kind) /\ k > 1 /\ lastr # <<>> =>
+GaussSeidelLaw == pc = "sweep" /\ ~IsAdd(kind) /\ ~AmaC /\ FullC /\ k > 1 /\ lastr # <<>> =>
    \A cb \in {1, 2} : \A t \in 1..NT :
       Gather(Residual(mats[cb], tests[t], X[cb][t]), idx[k - 1]) = RVScale(Sub(One, Omega(om)), lastr[cb][t])
 \* diag variants: the local correction solves the local system with A replaced by its main diagonal
-DiagLocalLaw == pc = "sweep" /\ ~IsAdd(kind) /\ ~IsAma(kind) /\ ~IsFull(kind) /\ k > 1 /\ lastr # <<>> =>
+DiagLocalLaw == pc = "sweep" /\ ~IsAdd(kind) /\ ~AmaC /\ ~FullC /\ k > 1 /\ lastr # <<>> =>
    \A cb \in {1, 2} : \A t \in 1..NT :
       LET b == k - 1  ix == idx[b]  nv == NvOf(b)  np == NpOf(b)  Mx == mats[cb]
           c == LocalSolve(fac[cb], b, lastr[cb][t])
       IN /\ \A a \in 1..nv : Add(Mul(Mx[ix[a]][ix[a]], c[a]), DSumTo(LAMBDA j : Mul(Mx[ix[a]][ix[nv + j]], c[nv + j]), np)) = lastr[cb][t][a]
          /\ \A i \in 1..np : DSumTo(LAMBDA a : Mul(Mx[ix[nv + i]][ix[a]], c[a]), nv) = lastr[cb][t][nv + i]
 \* one block covering every dof, omega = 1, one iteration, no filter: the preconditioner is the exact inverse
-WholeSystemLaw == pc = "done" /\ IsFull(kind) /\ NB = 1 /\ Len(idx[1]) = NN /\ om = 1 /\ iters = 1 /\ fsel = "none"
+WholeSystemLaw == pc = "done" /\ FullC /\ NB = 1 /\ Len(idx[1]) = NN /\ om = 1 /\ iters = 1 /\ fsel = "none"
                   /\ fac[1][1].st = "ok" /\ fac[2][1].st = "ok" =>
    \A cb \in {1, 2} : \A t \in 1..NT : RMatVec(NN, NN, mats[cb], X[cb][t]) = tests[t]
 Linearity == pc = "done" => \A cb \in 1..NC : X[cb][NT] = RVSub(RVScale(D(2), X[cb][NT - 1]), X[cb][1])
 ResultsExact == pc = "done" => \A cb \in 1..NC : \A t \in 1..NT : VecExact(X[cb][t])
 FilterLaw == pc = "done" => \A cb \in 1..NC : \A t \in 1..NT : \A i \in 1..NN : Filtered(i) => X[cb][t][i] = Zero
 \* AmaVanka (one step, no skipped macro) is Vanka block_full_add: x = filter(sum_k omega P_k^T L_k^-1 P_k f / count)
-AmaIsBlockFullAdd == pc = "done" /\ IsAma(kind) /\ iters = 1 /\ (\A i \in 1..NN : cnt[i] \in {1, 2, 4}) => \A c \in {1, 2} :
+AmaIsBlockFullAdd == pc = "done" /\ AmaC /\ iters = 1 /\ (\A i \in 1..NN : cnt[i] \in {1, 2, 4}) => \A c \in {1, 2} :
    (\A b \in 1..NB : fac[c][b].st = "ok") => \A t \in 1..NT :
       LET RECURSIVE Acc(_)
           Acc(b) == IF b = 0 THEN ZeroVec(NN) ELSE ScatterAdd(Acc(b - 1), idx[b], Omega(om), LocalSolve(fac[c], b, Gather(tests[t], idx[b])))
@@ -319,13 +347,13 @@ Pat01(r, c, S) == MatOf(r, c, LAMBDA i, j : IF <<i, j>> \in S THEN 1 ELSE 0)
 BlocksOut == [b \in 1..NB |-> [idx |-> idx[b], nv |-> nvs[b]]]
 Emit == pc \in {"done", "throws"} =>
   PrintT(ToJson([lay |-> lay, n |-> n, m |-> m, dim |-> dim, kind |-> kind, om |-> Omega(om), iters |-> iters, fsel |-> fsel,
-                 FV |-> SetSeq(FVNodes), FP |-> SetSeq(FPDofs), throws |-> (pc = "throws"),
+                 FV |-> SetSeq(FVNodes), FP |-> SetSeq(FPDofs), throws |-> (pc = "throws"), zdp |-> ZDP,
                  patA |-> MatOf(n, n, LAMBDA i, j : IF i = j \/ <<i, j>> \in PA THEN 1 ELSE 0),
                  patB |-> Pat01(n, m, PB), patD |-> Pat01(m, n, PD),
                  M1 |-> mats[1], M2 |-> mats[2], blocks |-> BlocksOut, count |-> cnt,
-                 ama1 |-> IF IsAma(kind) THEN ama[1] ELSE <<>>, ama2 |-> IF IsAma(kind) THEN ama[2] ELSE <<>>,
-                 mask1 |-> IF kind = "amas" THEN [b \in 1..NB |-> IF fac[1][b].st = "ok" THEN 1 ELSE 0] ELSE <<>>,
-                 mask2 |-> IF kind = "amas" THEN [b \in 1..NB |-> IF fac[2][b].st = "ok" THEN 1 ELSE 0] ELSE <<>>,
+                 ama1 |-> IF AmaC THEN ama[1] ELSE <<>>, ama2 |-> IF AmaC THEN ama[2] ELSE <<>>,
+                 mask1 |-> IF cls[1] = "amas" THEN [b \in 1..NB |-> IF fac[1][b].st = "ok" THEN 1 ELSE 0] ELSE <<>>,
+                 mask2 |-> IF cls[1] = "amas" THEN [b \in 1..NB |-> IF fac[2][b].st = "ok" THEN 1 ELSE 0] ELSE <<>>,
                  tests |-> tests,
                  steps |-> IF pc = "throws" THEN <<[op |-> "IS", exp |-> <<>>], [op |-> "INTHROW", exp |-> <<>>]>> ELSE StepsFrom(1, 0, 1)]))
 =============================================================================
